@@ -385,7 +385,19 @@ pub fn gen_c18(out: &mut Out, rng: &mut Rng, thorough: bool) {
             for q in 0..nreq {
                 // replies are tagged with connection and sequence number
                 let tag = vec![c as u16, q as u16, rng.u16()];
-                let req = Request::ReadHoldingRegisters(q as u16, 3);
+                // mostly the tagged register read; now and then a bit read of some quantity, a write
+                let (req, other): (Request<'static>, Option<Response>) = match rng.below(6) {
+                    0 => {
+                        let n = rng.range(1, 40);
+                        (Request::ReadCoils(q as u16, n as u16), Some(Response::ReadCoils(rng.bits(n.div_ceil(8) * 8))))
+                    }
+                    1 => {
+                        let n = rng.range(1, 40);
+                        (Request::ReadDiscreteInputs(q as u16, n as u16), Some(Response::ReadDiscreteInputs(rng.bits(n.div_ceil(8) * 8))))
+                    }
+                    2 => (Request::WriteSingleRegister(q as u16, c as u16), Some(Response::WriteSingleRegister(q as u16, c as u16))),
+                    _ => (Request::ReadHoldingRegisters(q as u16, 3), None),
+                };
                 // (in every third run no client counts: all requests of all connections carry
                 // transaction id 0 and the same unit – only the connection tells them apart)
                 let (tid, unit) = if run % 3 == 1 { (0, 0x11) } else { (rng.u16(), (c % 200) as u8 + 1) };
@@ -397,7 +409,7 @@ pub fn gen_c18(out: &mut Out, rng: &mut Rng, thorough: bool) {
                     // connection and must leave every other one alone (last request of the
                     // connection, so that the server closes with nothing unread: no RST)
                     2 | 3 | 4 if faulty && q == nreq - 1 => Svc::Reply(Response::ReadHoldingRegisters(rng.words(127))),
-                    _ => Svc::Reply(Response::ReadHoldingRegisters(tag)),
+                    _ => Svc::Reply(other.unwrap_or(Response::ReadHoldingRegisters(tag))),
                 });
             }
             line.push_str(&format!(
